@@ -153,9 +153,9 @@ func workHeaderKeys(h http.Header) []string {
 	return ks
 }
 
-func (w *world) setupRest(n int) (func(int), func()) {
+func (w *world) setupRest(n, hist int) (func(int), func()) {
 	t, r := w.r.Tape, w.r
-	calls := make([]*restCall, n)
+	calls := make([]*restCall, n+hist)
 	byID := map[string]*restCall{}
 	dispatch := http.HandlerFunc(func(rw http.ResponseWriter, req *http.Request) {
 		q := byID[req.Header.Get("X-Call")]
@@ -176,38 +176,42 @@ func (w *world) setupRest(n int) (func(int), func()) {
 		}
 	}
 	var sample []string
-	for i := 0; i < n; i++ {
+	for i := 0; i < n+hist; i++ {
 		q := &restCall{rt: routes[t.Intn(len(routes))]}
-		q.w, q.id, q.d = w, i, q.rt.d
-		switch v := t.Intn(12); v {
-		case 8:
-			q.exempt = 1
-		case 9:
-			q.exempt = 2
-		case 10:
-			q.near = 1
-		case 11:
-			q.near = 2
+		q.w, q.id, q.d, q.stuck = w, i, q.rt.d, i >= n
+		if !q.stuck {
+			switch v := t.Intn(12); v {
+			case 8:
+				q.exempt = 1
+			case 9:
+				q.exempt = 2
+			case 10:
+				q.near = 1
+			case 11:
+				q.near = 2
+			}
 		}
 		q.cl = genCaller(t, q.d)
-		if t.Chance(2, 3) {
+		if !q.stuck && t.Chance(2, 3) {
 			q.pre = time.Duration(t.Range(0, 1000)) * q.d / 1000
 		}
 		ctxEnds := q.exempt == 0 || q.cl.dl > 0 || q.cl.cancelAt >= 0
-		q.wk = &work{w: w, id: i, script: genScript(t, i, scriptOpts{rest: true, gate: q.exempt == 0, observe: true,
+		q.wk = &work{w: w, id: i, script: genScript(t, i, scriptOpts{rest: true, stuck: q.stuck, gate: q.exempt == 0, observe: true,
 			waitDone: ctxEnds, maxSteps: 8, effective: q.cl.effective(q.d)})}
 		w.works = append(w.works, q.wk)
 		q.rec = &recorder{w: w, id: i, hdr: http.Header{}}
 		calls[i] = q
 		byID[strconv.Itoa(i)] = q
-		sample = append(sample, fmt.Sprintf("call%d timeout=%v exempt=%d %v think=%v script=[%s]", i, q.d, q.exempt, q.cl, q.pre, scriptString(q.wk.script)))
+		if i < n+histSampled {
+			sample = append(sample, fmt.Sprintf("call%d history=%v timeout=%v exempt=%d %v think=%v script=[%s]", i, q.stuck, q.d, q.exempt, q.cl, q.pre, scriptString(q.wk.script)))
+		}
 	}
 	if r.Tracing() {
 		for _, s := range sample {
 			r.Logf("%s", s)
 		}
 	}
-	r.Sample(map[string]any{"component": "rest/handler.TimeoutHandler", "engine_wiring": engineMode, "routes": len(routes), "calls": sample})
+	r.Sample(map[string]any{"component": "rest/handler.TimeoutHandler", "engine_wiring": engineMode, "routes": len(routes), "history_calls": hist, "calls": sample})
 	run := func(i int) {
 		q := calls[i]
 		if q.pre > 0 {
@@ -238,6 +242,7 @@ func (w *world) setupRest(n int) (func(int), func()) {
 		q.tRet, q.returned = time.Now(), true
 		q.rec.seal()
 		r.Ev("return", int64(q.id), int64(q.rec.status), int64(q.rec.n))
+		q.noteReturn()
 		w.checkRest(q)
 	}
 	finish := func() {
@@ -410,6 +415,9 @@ func (w *world) checkRest(q *restCall) {
 	}
 	if complete {
 		r.Probe("rest-complete-result")
+		if k.copied > 0 {
+			r.Probe("rest-complete-result-with-copied-bytes")
+		}
 		if exp.n >= 1<<20 {
 			r.Probe("rest-complete-result-1MB+")
 		}
@@ -443,6 +451,9 @@ func (w *world) checkRest(q *restCall) {
 	}
 	if k.finished {
 		r.Probe("timeout-result-although-work-finished")
+	}
+	if k.inCopy {
+		r.Probe("timeout-result-while-work-inside-copy")
 	}
 	if len(k.acts) > 0 {
 		r.Probe("timeout-result-discarded-partial-writes")
